@@ -34,6 +34,9 @@ void harness_range(void)
 	VP_ASSERT(r >= 0 && r < top, "C46: evutil_weakrand_range_ result outside [0, top)");
 	VP_ASSERT(st.seed <= 0x7fffffffu, "C46: generator state left the 31-bit range");
 	VP_WITNESS("accepted draw");
+#ifdef VP_MULTI_DRAW
+	if (st.seed != ((seed * 1103515245u + 12345u) & 0x7fffffffu)) VP_WITNESS("returned after more than one draw");
+#endif
 }
 
 /* (b) bounded time: for every 32-bit state and every top in [1, VP_TOPMAX] the rejection
